@@ -9,4 +9,4 @@ cp $wt/_seed/*_test.go /verif/seeded/$id/ || exit 2
 git -C /repo worktree remove --force $wt >/dev/null 2>&1; rm -rf $wt /tmp/*${p}${s}_export /tmp/${p,,}${s}_export 2>/dev/null
 cd /verif
 bash seeded/verify.sh $id 2>&1 | grep -E "^RESULT"
-python3 tools/run_seeds.py $id 2>&1 | tail -1
+[ -n "$NO_RUN" ] || python3 tools/run_seeds.py $id 2>&1 | tail -1
